@@ -410,7 +410,7 @@ impl Prop for C20 {
     type Case = Case;
     const ID: &'static str = "C20";
     const NUM: u64 = 20;
-    const RULE: &'static str = "an abstract digraph G (order 1..20 quick / 1..64 thorough, orders 8, 9, 11, 16 over-represented) and a near-identical G' (equal, one arc different, one weight different, or one extra isolated vertex), each built in one of the six representations along one of six history styles (ascending adds, descending adds, superset then removals, add-remove-add / triple toggle, complete() minus the complement, stale weight then real weight); then a clone and a generated mutation of either side. Orders 65 and 66 are included. Non-trivial = the two histories differ in length by >=3 and one of them contains removals; distinct = distinct serialised case.";
+    const RULE: &'static str = "an abstract digraph G (order 1..20 quick / 1..64 thorough, orders 8, 9, 11, 16 over-represented) and a near-identical G' (equal, one arc different, one weight different, or one extra isolated vertex), each built in one of the six representations along one of six history styles (ascending adds, descending adds, superset then removals, add-remove-add / triple toggle, complete() minus the complement, stale weight then real weight); then a clone and a generated mutation of either side. Orders 65 and 66 are included. For AdjacencyMap, five variants of each case (an extra isolated id, another one, both, a dropped vertex, both changes) are compared pairwise with ==, cmp and hash and clone_from-ed onto each other. Non-trivial = the two histories differ in length by >=3 and one of them contains removals; distinct = distinct serialised case.";
     const ASSUMPTIONS: &'static [&'static str] = &["DefaultHasher is the hash observer"];
 
     fn legs(tier: Tier) -> Vec<Leg> {
